@@ -757,7 +757,7 @@ package lint
 //@                            F.revocationListLints.lintsByName[n] == r.revocationListLints.lintsByName[n])) &&
 //@      F.configuration == r.configuration
 
-//@ func (*registryImpl).Filter [C07 C08 C10]
+//@ func (*registryImpl).Filter [C07 C08 C10 C13]
 //@   requires wfRegistry(r) && xdistinct(r) && cfgOK(r.configuration)
 //@   maypanic
 //@   assigns \fresh
